@@ -77,13 +77,15 @@ class Watch:
 
     def sd(self, owner, items):
         s = owner._vals_.get(self.attr)
-        if s is None: return {'items': [], 'fully': False, 'count': None, 'added': [], 'removed': []}
+        if s is None: return {'items': [], 'fully': False, 'count': None, 'added': [], 'removed': [], 'absent': []}
         idx = lambda xs: sorted(x._pkval_ for x in (xs or ()))
-        return {'items': idx(s), 'fully': bool(s.is_fully_loaded), 'count': s.count, 'added': idx(s.added), 'removed': idx(s.removed)}
+        return {'items': idx(s), 'fully': bool(s.is_fully_loaded), 'count': s.count, 'added': idx(s.added), 'removed': idx(s.removed),
+                'absent': idx(s.absent)}
 
 
 def norm_sd(d):
-    return {'items': sorted(d['items']), 'fully': bool(d['fully']), 'count': d['count'], 'added': sorted(d['added']), 'removed': sorted(d['removed'])}
+    return {'items': sorted(d['items']), 'fully': bool(d['fully']), 'count': d['count'], 'added': sorted(d['added']), 'removed': sorted(d['removed']),
+            'absent': sorted(d.get('absent', []))}
 
 
 def watch_history(ctx, rng, kind, owning, cfg, nops, given=None):
@@ -108,13 +110,15 @@ def watch_history(ctx, rng, kind, owning, cfg, nops, given=None):
             items = {}
             nxt = N + 1
             script = given['ops'] if given is not None else None
+            queued = []                     # follow-up calls: membership test -> change of membership -> the same test, with no flush in between
             for step in range(nops if script is None else len(script)):
                 before = w.sd(owner, items)
                 Lprev = set(L)
                 if script is not None: op = script[step]
+                elif queued: op = queued.pop(0)
                 else:
                     k = rng.choice(['load_item', 'rev_add', 'rev_add', 'rev_remove', 'rev_remove', 'add', 'add', 'remove', 'remove', 'remove',
-                                    'len', 'count', 'count', 'flush', 'new_item'])
+                                    'len', 'count', 'count', 'flush', 'new_item', 'contains', 'contains', 'contains'])
                     x = rng.randrange(1, nxt)
                     if k == 'new_item':
                         x = nxt
@@ -127,7 +131,7 @@ def watch_history(ctx, rng, kind, owning, cfg, nops, given=None):
                     return bool(was_modified and cache is not None and not cache.modified)
                 if k == 'new_item':
                     items[x] = w.Item(id=x); nxt = max(nxt, x + 1)
-                elif k in ('load_item', 'rev_add', 'rev_remove', 'add', 'remove'):
+                elif k in ('load_item', 'rev_add', 'rev_remove', 'add', 'remove', 'contains'):
                     if x not in items:
                         # sub-step: the item's row is fetched (implicit flush first, when the session is modified)
                         wasmod = cache is not None and cache.modified
@@ -155,6 +159,19 @@ def watch_history(ctx, rng, kind, owning, cfg, nops, given=None):
                         owner.coll.add(it); L.add(x); mop = {'k': 'add', 'x': x}
                     elif k == 'remove':
                         owner.coll.remove(it); L.discard(x); mop = {'k': 'remove', 'x': x}
+                    elif k == 'contains':
+                        had_sd = owner._vals_.get(w.attr) is not None
+                        wasmod = cache is not None and cache.modified
+                        ret = int(it in owner.coll); exp = int(x in L)
+                        if kind == 'm2m':
+                            # the model's `contains` does its own Set.load(obj, {x}); `containsRev`: no SetData, the item's fully loaded side answers
+                            mop = {'k': 'contains' if (had_sd or owner._vals_.get(w.attr) is not None) else 'containsRev', 'x': x}
+                            if flushed_since(wasmod): pre.append({'k': 'flush'}); ctx.count('setdata:implicit-flush:contains')
+                        ctx.count('setdata:contains:%s:%s' % (kind, bool(ret)))
+                        if script is None and rng.random() < 0.7:
+                            # the same test again after the membership was changed, from either side, with nothing flushed in between
+                            ch = ('add' if rng.random() < 0.5 else 'rev_add') if not ret else ('remove' if rng.random() < 0.5 else 'rev_remove')
+                            queued[:] = [{'k': ch, 'x': x}, {'k': 'contains', 'x': x}]
                 elif k == 'len':
                     wasmod = cache is not None and cache.modified
                     ret = len(owner.coll); exp = len(L); mop = {'k': 'loadAll'}
@@ -169,7 +186,8 @@ def watch_history(ctx, rng, kind, owning, cfg, nops, given=None):
                 # loads the real call did on the way: a full load, or single items that are in the collection
                 adds = mop is not None and mop['k'] in ('revAdd', 'add')
                 takes = mop is not None and mop['k'] in ('revRemove', 'remove')
-                if after['fully'] and not before['fully'] and k != 'len':
+                if k == 'contains': pass
+                elif after['fully'] and not before['fully'] and k != 'len':
                     pre.append({'k': 'loadAll'})
                 else:
                     for i in after['items']:
